@@ -340,11 +340,27 @@ Inductive inner_result :=
 | IMore (t : term) (lip : bool) (rest : list N)             (* need more input *)
 | ILine (stmts : list (list N)) (pasted : bool) (t : term) (rest : list N).
 
+(* readLine (after fix commit f013140):
+     before := len(rest); key, rest = bytesToKey(rest, t.pasteActive)
+     if key == utf8.RuneError && before-len(rest) != utf8.RuneLen(utf8.RuneError) { break }
+   bytesToKey answers utf8.RuneError (BNone) in three situations, told apart by the number of bytes it
+   consumed: 0 = incomplete input (wait for the next Read), 1 = an invalid byte (dropped, wait), and
+   3 = a well-formed U+FFFD that was really typed - since the fix that one is a key like any other.
+   (Before the fix every RuneError ended the inner loop: a typed U+FFFD was silently dropped.) *)
+Definition runeErrorLen : nat := 3.          (* utf8.RuneLen(utf8.RuneError) *)
+
+Definition next_key (rest : list N) (pasteActive : bool) : bk :=
+  match bytes_to_key rest pasteActive with
+  | BKey k rest' => BKey k rest'
+  | BNone rest' =>
+      if (length rest - length rest' =? runeErrorLen)%nat then BKey runeError rest' else BNone rest'
+  end.
+
 Fixpoint inner (fuel : nat) (t : term) (lip : bool) (rest : list N) : inner_result :=
   match fuel with
   | O => IStop Unmodelled
   | S f =>
-      match bytes_to_key rest (paste t) with
+      match next_key rest (paste t) with
       | BNone rest' => IMore t lip rest'
       | BKey k rest' =>
           match process_key t lip k with
